@@ -526,8 +526,13 @@ func (n *NN) nonNil(v ssa.Value, seen map[ssa.Value]bool) (bool, string) {
 		}
 		return true, "" // []byte(string) etc.: content conversion; emptiness is not nilness for our sinks
 	case *ssa.Phi:
-		for _, e := range x.Edges {
+		for i, e := range x.Edges {
 			if ok, why := n.nonNil(e, seen); !ok {
+				// "var c T; if m != nil { c = copy of m }" with m known to be non-nil: the nil edge is the failing
+				// side of a nil test on a value that is never nil, so it is never taken
+				if c, isC := e.(*ssa.Const); isC && c.IsNil() && i < len(x.Block().Preds) && n.edgeNeedsNil(x.Block().Preds[i], x.Block(), seen) {
+					continue
+				}
 				return false, why
 			}
 		}
@@ -601,6 +606,43 @@ func (n *NN) nonNil(v ssa.Value, seen map[ssa.Value]bool) (bool, string) {
 		return true, "" // element of a slice of containers: non-nil by the element rule (ruleTypedNil checks every element store)
 	}
 	return false, fmt.Sprintf("%T", v)
+}
+
+// edgeNeedsNil: control takes the edge pred -> blk only when a map or slice that the analysis knows to be non-nil
+// compared equal to nil (pred ends in that test, or is reached only through it by unconditional jumps).
+func (n *NN) edgeNeedsNil(pred, blk *ssa.BasicBlock, seen map[ssa.Value]bool) bool {
+	for hops := 0; hops < 3 && pred != nil; hops++ {
+		if iff, ok := pred.Instrs[len(pred.Instrs)-1].(*ssa.If); ok {
+			bo, isB := iff.Cond.(*ssa.BinOp)
+			if !isB || len(pred.Succs) != 2 || pred.Succs[0] == pred.Succs[1] {
+				return false
+			}
+			c, isC := bo.Y.(*ssa.Const)
+			if !isC || !c.IsNil() || !isContainer(bo.X.Type()) {
+				return false
+			}
+			nilSide := pred.Succs[0] // X == nil
+			if bo.Op == token.NEQ {
+				nilSide = pred.Succs[1]
+			} else if bo.Op != token.EQL {
+				return false
+			}
+			if nilSide != blk {
+				return false
+			}
+			seen2 := map[ssa.Value]bool{}
+			for k, v := range seen {
+				seen2[k] = v
+			}
+			ok2, _ := n.nonNil(bo.X, seen2)
+			return ok2
+		}
+		if _, isJump := pred.Instrs[len(pred.Instrs)-1].(*ssa.Jump); !isJump || len(pred.Preds) != 1 || len(pred.Instrs) != 1 {
+			return false
+		}
+		blk, pred = pred, pred.Preds[0]
+	}
+	return false
 }
 
 func (n *NN) cellNonNil(a *ssa.Alloc, load *ssa.UnOp, seen map[ssa.Value]bool) (bool, string) {
